@@ -2756,8 +2756,12 @@ class HasTraits(CHasTraits, metaclass=MetaHasTraits):
             return
         locked = info[""]
         locked[name] = None
-        for object, object_name in info[name].values():
+        # Iterate over a copy: a partner may be garbage collected while the
+        # change propagates, which removes its entry from the table.
+        for object, object_name in list(info[name].values()):
             object = object()
+            if object is None:
+                continue
             if object_name not in object._get_sync_trait_info()[""]:
                 try:
                     setattr(object, object_name, new)
@@ -2780,8 +2784,12 @@ class HasTraits(CHasTraits, metaclass=MetaHasTraits):
             return
         locked = info[""]
         locked[name] = None
-        for object, object_name in info[name].values():
+        # Iterate over a copy: a partner may be garbage collected while the
+        # change propagates, which removes its entry from the table.
+        for object, object_name in list(info[name].values()):
             object = object()
+            if object is None:
+                continue
             if object_name not in object._get_sync_trait_info()[""]:
                 try:
                     if delete:
